@@ -12,7 +12,7 @@
    quantified in every theorem. *)
 From Coq Require Import ZArith List Bool.
 From PTK Require Import Lib.Sx Lib.Py Model.Document Model.C16_Search Model.C16_SearchSpec
-  Proofs.C16_MatchFacts Proofs.C16_SearchFacts Model.C16_Regex Proofs.C16_RegexFacts Proofs.C16_MoreFacts
+  Proofs.C16_MatchFacts Proofs.C16_SearchFacts Model.C16_Regex Proofs.C16_RegexFacts Proofs.C16_MoreFacts Model.C16_ReFind Proofs.C16_ReFindFacts
   Gen.C16_Sre Gen.C16_CaseFold.
 Import ListNotations.
 Open Scope Z_scope.
@@ -586,3 +586,63 @@ Theorem C16_ignorecase_observed : forall p t,
   In p c16_fold_alphabet -> In t c16_fold_alphabet -> ceq_tab p t = ceq_sre p t.
 Proof. exact ceq_sre_observed. Qed.
 Print Assumptions C16_ignorecase_observed.
+
+(* ====================================================================== *)
+(* Round 7: the search loop of re.finditer (Model/C16_ReFind.v).
+
+   [re_finditer pattern text ic]: compile the pattern (parser + IGNORECASE
+   compilation of Model/C16_Regex.v) and run [finditer_ops]: at every position
+   from left to right try the op sequence, yield a match and resume where it
+   ended (an empty match at every position).  For the escaped needle its
+   (k+1)-th element is exactly the (k+1)-th match of the leftmost
+   non-overlapping scan of real occurrences ([nth_match], occurrences compared
+   with [ceq_sre]); there is no (k+1)-th element exactly when that scan has
+   fewer.  Document.find / find_backwards written over it, with the
+   `enumerate` / `i + 1 == count` loop of the Python, ARE [doc_find] /
+   [doc_find_backwards] at ceq := ceq_sre for every argument (counts below 1
+   included) - so every theorem of this file instantiated at ceq_sre speaks
+   about the code as written over `re`; the two nearest-occurrence theorems
+   are restated directly.  What is still assumed: that `_sre` executes this
+   scan and the three single ops as modelled. *)
+Theorem C16_finditer_is_scan : forall ic needle text k,
+  exists it, re_finditer (re_escape needle) text ic = Some it /\
+    match nth_error it k with
+    | Some j => 0 <= j /\ nth_match ceq_sre ic needle text 0 k (Z.to_nat j)
+    | None => forall p, ~ nth_match ceq_sre ic needle text 0 k p
+    end.
+Proof. exact finditer_spec. Qed.
+Print Assumptions C16_finditer_is_scan.
+
+Theorem C16_find_is_re_find : forall d sub icp ic count,
+  doc_find_re d sub icp ic count = Some (doc_find ceq_sre d sub icp ic count).
+Proof. exact doc_find_re_eq. Qed.
+Print Assumptions C16_find_is_re_find.
+
+Theorem C16_find_backwards_is_re_find : forall d sub ic count,
+  doc_find_backwards_re d sub ic count = Some (doc_find_backwards ceq_sre d sub ic count).
+Proof. exact doc_find_backwards_re_eq. Qed.
+Print Assumptions C16_find_backwards_is_re_find.
+
+Theorem C16_find_forward_re_nearest : forall (d : doc) (sub : str) (icp ic : bool),
+  0 <= dcur d <= len (dtext d) ->
+  let lo := if icp then dcur d else dcur d + 1 in
+  match doc_find_re d sub icp ic 1 with
+  | Some (Some r) => lo <= dcur d + r /\ occurs ceq_sre ic sub (dtext d) (dcur d + r) /\
+                     forall q, lo <= q < dcur d + r -> ~ occurs ceq_sre ic sub (dtext d) q
+  | Some None => forall q, lo <= q -> ~ occurs ceq_sre ic sub (dtext d) q
+  | None => False
+  end.
+Proof. exact doc_find_re_nearest. Qed.
+Print Assumptions C16_find_forward_re_nearest.
+
+Theorem C16_find_backward_re_nearest : forall (d : doc) (sub : str) (ic : bool),
+  0 <= dcur d <= len (dtext d) ->
+  match doc_find_backwards_re d sub ic 1 with
+  | Some (Some r) => 0 <= dcur d + r /\ dcur d + r + len sub <= dcur d /\
+                     occurs ceq_sre ic sub (dtext d) (dcur d + r) /\
+                     forall q, occurs ceq_sre ic sub (dtext d) q -> q + len sub <= dcur d -> q <= dcur d + r
+  | Some None => forall q, occurs ceq_sre ic sub (dtext d) q -> ~ q + len sub <= dcur d
+  | None => False
+  end.
+Proof. exact doc_find_backwards_re_nearest. Qed.
+Print Assumptions C16_find_backward_re_nearest.
